@@ -14,6 +14,14 @@ from .core import Report, Unrecognised, finish
 ALL = [f"C{i:02d}" for i in range(1, 21)]
 
 
+class _OutOfTime(BaseException):
+    pass
+
+
+def _out_of_time(signum, frame):
+    raise _OutOfTime()
+
+
 def _is_known(o):
     from .core import _matches, load_known_findings
 
@@ -23,6 +31,17 @@ def _is_known(o):
 def run_property(pid: str, tier: str, seed: int, repo=None, write_evidence=True, quiet=False, only_rule=None):
     t0 = time.time()
     report = Report(pid, tier)
+    import signal
+
+    budget = int(os.environ.get("SA_BUDGET", "900"))
+    own_alarm = False
+    try:
+        if signal.getitimer(signal.ITIMER_REAL)[0] == 0:
+            signal.signal(signal.SIGALRM, _out_of_time)
+            signal.alarm(budget)
+            own_alarm = True
+    except (ValueError, AttributeError):  # not the main thread
+        pass
     try:
         if repo is None:
             from .repo import Repo
@@ -31,14 +50,21 @@ def run_property(pid: str, tier: str, seed: int, repo=None, write_evidence=True,
         repo.touched = set()
         mod = importlib.import_module(f"sa.rules.{pid.lower()}")
         mod.run(repo, report, tier)
+        if own_alarm:
+            signal.alarm(0)  # the budget is for the rules; the sweeps below have their own per-variant limit
         if tier == "thorough" and not repo.overrides and not any(o.state != "DISCHARGED" for o in report.obligations if not _is_known(o)):
             from . import thorough
 
             thorough.sweep(pid, report, repo)
     except Unrecognised as u:
         report.unrecognised(f"{pid}.engine", "engine", u.what, u.loc)
+    except _OutOfTime:
+        report.unrecognised(f"{pid}.engine", "engine", f"the analysis did not finish within {budget} s (a construct makes the abstract execution explode); no verdict")
     except Exception as e:  # noqa: BLE001 - a traceback must never look like a violation
         report.unrecognised(f"{pid}.engine", "engine", f"internal error {type(e).__name__}: {e}\n{traceback.format_exc(limit=8)}")
+    finally:
+        if own_alarm:
+            signal.alarm(0)
     if only_rule:
         report.obligations = [o for o in report.obligations if o.rule == only_rule["rule"] and o.construct == only_rule["construct"]] or report.obligations
     return finish(report, time.time() - t0, seed, write_evidence=write_evidence, quiet=quiet), report
